@@ -691,6 +691,7 @@ pub fn run(ctx: Ctx) -> i32 {
         ("F-chains", vcore::gram::family_chains()),
         ("F-empty", vcore::gram::family_empty().into_iter().chain(vcore::gram::family_empty2()).collect::<Vec<_>>()),
         ("F-wide (tokens from index 62-120, rules from index 1-65)", vcore::gram::family_wide()),
+        ("F-refgraph (every reference graph on four rules with <= 2 ordered references per rule)", vcore::gram::family_refgraph()),
     ] {
         sizes.push((n.to_string(), f.len()));
         grammars.extend(f);
